@@ -408,8 +408,12 @@ pub(crate) fn blend<S: Sample>(
         blend_params.width = clipped_original_frame_region.width as usize;
         blend_params.height = clipped_original_frame_region.height as usize;
 
-        let new_grid = new_grid.buffer()[idx].as_float().unwrap();
-        blend_single(target_subgrid, new_grid.as_subgrid(), &blend_params);
+        // Frame may be placed entirely outside of the requested region, in which case the buffer
+        // of the new frame may be empty and there's nothing to blend.
+        if !clipped_original_frame_region.is_empty() {
+            let new_grid = new_grid.buffer()[idx].as_float().unwrap();
+            blend_single(target_subgrid, new_grid.as_subgrid(), &blend_params);
+        }
         output_grid.append_channel(target_grid, target_region);
     }
 
